@@ -3,7 +3,7 @@
     crates/core/src/ops.rs, crates/config/src/rule_core.rs:do_match).
    The environment is threaded EXACTLY as the Rust threads it: copy-on-write where the code copies
    (Pattern, All, Any), passed through where the code passes the caller's environment through
-   (Not, relational rules, nthChild.ofRule, matches) — and returned on failure too. *)
+   (relational rules, nthChild.ofRule, matches) — and returned on failure too. *)
 From Coq Require Import List NArith ZArith Bool Arith.
 From AG Require Import Base.Val Base.Sort Str.MetaVar Str.AnB Tree.Tree Match.MatchNode Rule.Rule.
 Import ListNotations.
@@ -85,23 +85,33 @@ Fixpoint eval (fuel : nat) (c : ctx) (q : ereq) (e : env) {struct fuel} : eres *
             | None => (EFound None, e)
             | Some pp =>
                 let nameds := named_child_locs c pp in
-                let '(ids, e1, ok) :=
+                (* every sibling is tried on a scratch view of [e]; nothing is written *)
+                let '(ids, ok) :=
                   match of_rule with
-                  | None => (map (loc_id c) nameds, e, true)
+                  | None => (map (loc_id c) nameds, true)
                   | Some r' =>
                       match eval f c (QNthOf r' nameds []) e with
-                      | (EIds l, e') => (l, e', true)
-                      | (_, e') => ([], e', false)
+                      | (EIds l, _) => (l, true)
+                      | _ => ([], false)
                       end
                   end in
-                if negb ok then (EFuel, e1) else
+                if negb ok then (EFuel, e) else
                 let ids' := if reverse then rev ids else ids in
                 match index_of (tid t) ids' 0 with
-                | None => (EFound None, e1)
+                | None => (EFound None, e)
                 | Some i =>
                     match is_matched a b (Z.of_nat i) with
-                    | Some true => (EFound (Some n), e1)
-                    | _ => (EFound None, e1)
+                    | Some true =>
+                        (* the variables of ofRule are bound on the node itself *)
+                        match of_rule with
+                        | None => (EFound (Some n), e)
+                        | Some r' =>
+                            match eval f c (QRule r' n) e with
+                            | (EFound (Some _), e') => (EFound (Some n), e')
+                            | other => other
+                            end
+                        end
+                    | _ => (EFound None, e)
                     end
                 end
             end
@@ -137,7 +147,7 @@ Fixpoint eval (fuel : nat) (c : ctx) (q : ereq) (e : env) {struct fuel} : eres *
                               match matches_fresh sr nd with
                               | None => (EFuel, e')
                               | Some true => (EFound None, e')
-                              | Some false => eval f c (QFind r' FPlain None (child_locs (c_root c) nd)) e'
+                              | Some false => eval f c (QHasRule r' sr (child_locs (c_root c) nd)) e'
                               end
                           | other => other
                           end
@@ -182,9 +192,9 @@ Fixpoint eval (fuel : nat) (c : ctx) (q : ereq) (e : env) {struct fuel} : eres *
         | RAny rs => eval f c (QAny rs n e) e
         | RNot r' =>
             match eval f c (QRule r' n) e with
-            | (EFound (Some _), e') => (EFound None, e')    (* the caller's environment keeps the writes *)
-            | (EFound None, e') => (EFound (Some n), e')
-            | other => other
+            | (EFound (Some _), _) => (EFound None, e)      (* evaluated on a scratch copy-on-write view *)
+            | (EFound None, _) => (EFound (Some n), e)
+            | (o, _) => (o, e)
             end
         | RMatches id =>
             match lookup id (c_utils c) with
@@ -268,9 +278,9 @@ Fixpoint eval (fuel : nat) (c : ctx) (q : ereq) (e : env) {struct fuel} : eres *
         | [] => (EIds (rev acc), e)
         | cand :: rest =>
             match eval f c (QRule r cand) e with
-            | (EFound (Some m), e') => eval f c (QNthOf r rest (loc_id c m :: acc)) e'
-            | (EFound None, e') => eval f c (QNthOf r rest acc) e'
-            | (o, e') => (o, e')
+            | (EFound (Some m), _) => eval f c (QNthOf r rest (loc_id c m :: acc)) e
+            | (EFound None, _) => eval f c (QNthOf r rest acc) e
+            | (o, _) => (o, e)
             end
         end
     end
